@@ -10,7 +10,7 @@ REQUIRED_THEOREMS = ["Gv.Props.C10." + n for n in [
     "sampleRows_wf", "randSubAlign_wf", "bootstrap_every_seed", "shuffle_every_seed", "rarefy_keeps_counted_rows_in_order",
     "addGaps_only_adds_gaps", "recombine_copies_within_columns", "swap_keeps_column_multisets",
     "rogue_permutes_chosen_rows_and_partitions_names", "addGaps_every_seed", "swap_every_seed", "recombine_every_seed",
-    "addGaps_wf", "swapRows_wf", "recombine_wf", "simulateRogue_wf"]]
+    "addGaps_wf", "swapRows_wf", "recombine_wf", "simulateRogue_wf", "shuffleSites_permutes_within_columns"]]
 LEVEL_TEXT = ("Lean theorems over programs-with-random-draws (RProg): each modelled randomised operation keeps its promise for "
               "EVERY admissible answer tape (hence every seed: runGen_is_runTape), and support theorems exhibit a tape for every "
               "admissible outcome (each site bootstrapped, each window offset incl. the last, each row sampled); tied to /repo by "
@@ -25,8 +25,7 @@ RULE = ("alignments of 1..6 rows x 1..12 columns (nucleotide / protein, gaps and
 PARTIAL = ["proved in Lean for all outcomes of the draws (hence every seed): ShuffleSequences, rand.Perm, Sample, RandSubAlign (both modes), "
            "BuildBootstrap (invariant + support), Mutate (frame), Rarefy (sub-list of counted rows), AddGaps (only adds gaps), Swap "
            "(column multisets, rectangular input), Recombine (copies within columns, rectangular input, len <= L), SimulateRogue "
-           "(chosen rows permuted, others untouched, names partitioned)",
-           "ShuffleSites is not modelled yet",
+           "(chosen rows permuted, others untouched, names partitioned), ShuffleSites (column multisets)",
            "support ('positive probability') is proved in the ideal-source reading: an admissible tape exists for every admissible "
            "outcome; the statistical run (`rnd support`: 3000 independent runs per case, a missing outcome has probability < 1e-30 on an "
            "ideal source) covers bootstrap sites, sampled rows, window offsets, sampled columns and row permutations only"]
@@ -70,6 +69,7 @@ def gen(rng, tier):
         yield Case("rnd", ["rogue"] + base + [rng.choice(FR + ["2"]), rng.choice(FR + ["2"])], big, "rogue")
         if rng.random() < 0.2:
             yield Case("rnd", ["twice"] + base, big, "twice")
+        yield Case("rnd", ["shufflesites"] + base + [rng.choice(FR), rng.choice(FR), rng.randint(0, 1)], big, "shufflesites")
         # Rarefy: counts for a random subset of the rows (sometimes an unknown name, a zero count, nb too large)
         names = [r[0] for r in rows]
         sub = rng.sample(names, rng.randint(1, n))
